@@ -20,10 +20,42 @@ import (
 
 var out strings.Builder
 
-func fail(format string, a ...any) {
+type genErr string
+
+// fail aborts the current section (see section): the definitions of that section are replaced by placeholders that
+// no tie lemma accepts, so that only the properties depending on that table stop, not every property.
+func fail(format string, a ...any) { panic(genErr(fmt.Sprintf(format, a...))) }
+
+func fatal(format string, a ...any) {
 	fmt.Fprintf(os.Stderr, "gen: "+format+"\n", a...)
 	os.Exit(1)
 }
+
+type def struct{ name, typ, placeholder string }
+
+var warnings []string
+
+// section runs f; if it fails (a declaration the translator reads was renamed, moved or rewritten) what it emitted is
+// dropped and each of its definitions gets a placeholder value.
+func section(defs []def, f func()) {
+	saved := out.String()
+	defer func() {
+		if r := recover(); r != nil {
+			out.Reset()
+			out.WriteString(saved)
+			msg := fmt.Sprint(r)
+			warnings = append(warnings, msg)
+			fmt.Fprintf(os.Stderr, "gen: section failed: %s\n", msg)
+			for _, d := range defs {
+				emit("(* gen: NOT FOUND in the source (%s) *)", strings.ReplaceAll(msg, "*)", "* )"))
+				emit("Definition %s : %s := %s.", d.name, d.typ, d.placeholder)
+			}
+		}
+	}()
+	f()
+}
+
+const missingN = "18446744073709551615%N"
 
 func emit(format string, a ...any) { fmt.Fprintf(&out, format+"\n", a...) }
 
@@ -267,8 +299,41 @@ func exprString(p *packages.Package, e ast.Expr) string {
 }
 
 // algorithm tables: for each case of the switch the hash constructor named in the returned literal and the integer literal(s)
+// switchFunc finds the (package-level, receiver-less) function whose body switches on a value of the named type: the
+// function's own name is the author's choice and may change.
+func switchFunc(p *packages.Package, tagType string) *ast.FuncDecl {
+	for _, f := range p.Syntax {
+		for _, d := range f.Decls {
+			fd, ok := d.(*ast.FuncDecl)
+			if !ok || fd.Body == nil || fd.Recv != nil {
+				continue
+			}
+			found := false
+			ast.Inspect(fd.Body, func(n ast.Node) bool {
+				if sw, ok := n.(*ast.SwitchStmt); ok && sw.Tag != nil {
+					if t := p.TypesInfo.TypeOf(sw.Tag); t != nil && strings.HasSuffix(t.String(), tagType) {
+						found = true
+					}
+				}
+				return !found
+			})
+			if found {
+				return fd
+			}
+		}
+	}
+	return nil
+}
+
 func algTable(p *packages.Package, fn string, name string) {
-	fd := findFunc(p, "", fn)
+	var fd *ast.FuncDecl
+	if strings.HasPrefix(fn, "switch:") {
+		if fd = switchFunc(p, fn[len("switch:"):]); fd == nil {
+			fail("%s: no function switching on %s", p.PkgPath, fn)
+		}
+	} else {
+		fd = findFunc(p, "", fn)
+	}
 	emit("Definition %s : list (list N * string) := [", name)
 	var rows []string
 	ast.Inspect(fd.Body, func(n ast.Node) bool {
@@ -290,7 +355,13 @@ func algTable(p *packages.Package, fn string, name string) {
 				switch x := m.(type) {
 				case *ast.SelectorExpr:
 					if id, ok := x.X.(*ast.Ident); ok {
-						body = append(body, id.Name+"."+x.Sel.Name)
+						// a method or field of a local variable / parameter: its name is the author's choice, not a
+						// property of the table (renaming it must not change the generated table)
+						name := id.Name
+						if v, isVar := p.TypesInfo.Uses[id].(*types.Var); isVar && v.Parent() != p.Types.Scope() {
+							name = "_"
+						}
+						body = append(body, name+"."+x.Sel.Name)
 					}
 					return false
 				case *ast.BasicLit:
@@ -638,12 +709,12 @@ func main() {
 		"github.com/gebn/bmc/internal/pkg/transport", "github.com/gebn/bmc/pkg/layerexts", "github.com/gebn/bmc/pkg/iana",
 		"github.com/gebn/bmc/internal/pkg/bcd", "github.com/gebn/bmc/internal/pkg/complement")
 	if err != nil {
-		fail("load: %v", err)
+		fatal("load: %v", err)
 	}
 	ps := pkgs{}
 	for _, p := range loaded {
 		if len(p.Errors) > 0 {
-			fail("package %s: %v", p.PkgPath, p.Errors[0])
+			fatal("package %s: %v", p.PkgPath, p.Errors[0])
 		}
 		ps[p.PkgPath] = p
 	}
@@ -679,18 +750,23 @@ func main() {
 		{root, "sdrHeaderLength"}, {root, "sdrMaxLength"},
 		{dcmi, "SystemPowerStatisticsModeEnhanced"},
 	} {
-		emit("Definition %s : N := %d%%N.", c.name, constVal(c.p, c.name))
+		c := c
+		section([]def{{c.name, "N", missingN}}, func() { emit("Definition %s : N := %d%%N.", c.name, constVal(c.p, c.name)) })
 	}
 	emit("")
-	operations(ps)
+	section([]def{{"operations", "list (string * (N * N * N * N))", "[]"}, {"command_operation", "list (string * string)", "[]"}},
+		func() { operations(ps) })
 	emit("")
 	// cipher suites
 	for _, n := range []string{"CipherSuite3", "CipherSuite17"} {
-		vs, i := findVar(ipmi, n)
-		m := structLit(ipmi, vs.Values[i])
-		emit("Definition %s : N * N * N := (%d, %d, %d)%%N.", n, m["AuthenticationAlgorithm"], m["IntegrityAlgorithm"], m["ConfidentialityAlgorithm"])
+		n := n
+		section([]def{{n, "N * N * N", "(255, 255, 255)%N"}}, func() {
+			vs, i := findVar(ipmi, n)
+			m := structLit(ipmi, vs.Values[i])
+			emit("Definition %s : N * N * N := (%d, %d, %d)%%N.", n, m["AuthenticationAlgorithm"], m["IntegrityAlgorithm"], m["ConfidentialityAlgorithm"])
+		})
 	}
-	{
+	section([]def{{"defaultCipherSuites", "list (N * N * N)", "[]"}}, func() {
 		vs, i := findVar(root, "defaultCipherSuites")
 		cl := vs.Values[i].(*ast.CompositeLit)
 		var names []string
@@ -698,23 +774,45 @@ func main() {
 			names = append(names, e.(*ast.SelectorExpr).Sel.Name)
 		}
 		emit("Definition defaultCipherSuites : list (N * N * N) := [%s].", strings.Join(names, "; "))
-	}
+	})
 	emit("")
 	emit("(* algorithm tables: case values and the identifiers / integer literals of the case body *)")
-	algTable(root, "algorithmAuthenticationHashGenerator", "auth_table")
-	algTable(root, "algorithmHasher", "integrity_table")
-	algTable(root, "algorithmCipher", "confidentiality_table")
-	algTable(dcmi, "secondsMultiplier", "seconds_multiplier_table")
+	for _, t := range []struct {
+		p        *packages.Package
+		fn, name string
+	}{{root, "switch:ipmi.AuthenticationAlgorithm", "auth_table"}, {root, "switch:ipmi.IntegrityAlgorithm", "integrity_table"},
+		{root, "switch:ipmi.ConfidentialityAlgorithm", "confidentiality_table"}, {dcmi, "secondsMultiplier", "seconds_multiplier_table"}} {
+		t := t
+		section([]def{{t.name, "list (list N * string)", "[]"}}, func() { algTable(t.p, t.fn, t.name) })
+	}
 	emit("")
 	// temporary completion codes: the constants compared in IsTemporary
-	{
+	section([]def{{"temporary_codes", "list N", "[]"}}, func() {
 		fd := findFunc(ipmi, "CompletionCode", "IsTemporary")
 		var codes []int64
 		ast.Inspect(fd.Body, func(n ast.Node) bool {
-			be, ok := n.(*ast.BinaryExpr)
-			if ok && be.Op == token.EQL {
-				if v, ok := evalInt(ipmi, be.Y); ok {
-					codes = append(codes, v)
+			switch x := n.(type) {
+			case *ast.BinaryExpr:
+				if x.Op == token.EQL {
+					if v, ok := evalInt(ipmi, x.Y); ok {
+						codes = append(codes, v)
+					}
+				}
+			case *ast.CaseClause:
+				returnsTrue := false
+				for _, st := range x.Body {
+					if r, ok := st.(*ast.ReturnStmt); ok && len(r.Results) == 1 {
+						if id, ok := r.Results[0].(*ast.Ident); ok && id.Name == "true" {
+							returnsTrue = true
+						}
+					}
+				}
+				if returnsTrue {
+					for _, e := range x.List {
+						if v, ok := evalInt(ipmi, e); ok {
+							codes = append(codes, v)
+						}
+					}
 				}
 			}
 			return true
@@ -724,9 +822,9 @@ func main() {
 		}
 		sort.Slice(codes, func(i, j int) bool { return codes[i] < codes[j] })
 		emit("Definition temporary_codes : list N := %s.", nlist(codes))
-	}
+	})
 	// kConstantLength
-	{
+	section([]def{{"kConstantLength", "N", missingN}}, func() {
 		fd := findFunc(root, "additionalKeyMaterialGenerator", "K")
 		var v int64 = -1
 		ast.Inspect(fd.Body, func(n ast.Node) bool {
@@ -741,77 +839,50 @@ func main() {
 			fail("kConstantLength not found")
 		}
 		emit("Definition kConstantLength : N := %d%%N.", v)
-	}
+	})
 	// bcdPlusRunes
-	{
+	section([]def{{"bcdPlusRunes", "list N", "[]"}}, func() {
 		vs, i := findVar(ipmi, "bcdPlusRunes")
 		emit("Definition bcdPlusRunes : list N := %s.", nlist(intList(ipmi, vs, i, "bcdPlusRunes")))
-	}
+	})
 	// map key -> function name tables
 	for _, t := range []struct{ v, name string }{{"analogDataFormatParsers", "analog_parsers"}, {"stringEncodingDecoders", "string_decoders"},
 		{"linearisationLinearisers", "linearisers"}} {
-		vs, i := findVar(ipmi, t.v)
-		cl := vs.Values[i].(*ast.CompositeLit)
-		var rows []string
-		for _, e := range cl.Elts {
-			kv := e.(*ast.KeyValueExpr)
-			k, ok := evalInt(ipmi, kv.Key)
-			if !ok {
-				fail("%s: non-constant key", t.v)
+		t := t
+		section([]def{{t.name, "list (N * string)", "[]"}}, func() {
+			vs, i := findVar(ipmi, t.v)
+			cl := vs.Values[i].(*ast.CompositeLit)
+			var rows []string
+			for _, e := range cl.Elts {
+				kv := e.(*ast.KeyValueExpr)
+				k, ok := evalInt(ipmi, kv.Key)
+				if !ok {
+					fail("%s: non-constant key", t.v)
+				}
+				rows = append(rows, fmt.Sprintf("(%d%%N, %q)", k, exprString(ipmi, kv.Value)))
 			}
-			rows = append(rows, fmt.Sprintf("(%d%%N, %q)", k, exprString(ipmi, kv.Value)))
-		}
-		emit("Definition %s : list (N * string) := [%s].", t.name, strings.Join(rows, "; "))
+			emit("Definition %s : list (N * string) := [%s].", t.name, strings.Join(rows, "; "))
+		})
 	}
 	// DCMI entity lists
 	for _, n := range []string{"ipmiSensorEntityIDs", "dcmiSensorEntityIDs"} {
-		vs, i := findVar(dcmi, n)
-		emit("Definition %s : list N := %s.", n, nlist(intList(dcmi, vs, i, n)))
-	}
-	// literals of the connections: console session ID, message sequence, RMCP header
-	{
-		fd := findFunc(root, "V2SessionlessTransport", "newV2Session")
-		var sid int64 = -1
-		ast.Inspect(fd.Body, func(n ast.Node) bool {
-			if kv, ok := n.(*ast.KeyValueExpr); ok {
-				if id, ok := kv.Key.(*ast.Ident); ok && id.Name == "SessionID" {
-					if v, ok := evalInt(root, kv.Value); ok {
-						sid = v
-					}
-				}
-			}
-			return true
+		n := n
+		section([]def{{n, "list N", "[]"}}, func() {
+			vs, i := findVar(dcmi, n)
+			emit("Definition %s : list N := %s.", n, nlist(intList(dcmi, vs, i, n)))
 		})
-		if sid < 0 {
-			fail("newV2Session: SessionID literal not found")
-		}
-		emit("Definition console_session_id : N := %d%%N.", sid)
-	}
-	for _, fn := range []struct{ recv, name, out string }{{"V2Sessionless", "buildAndSendCommand", "sessionless"}, {"V2Session", "buildAndSend", "session"}} {
-		fd := findFunc(root, fn.recv, fn.name)
-		vals := map[string]int64{}
-		ast.Inspect(fd.Body, func(n ast.Node) bool {
-			if kv, ok := n.(*ast.KeyValueExpr); ok {
-				if id, ok := kv.Key.(*ast.Ident); ok {
-					if v, ok := evalInt(root, kv.Value); ok {
-						vals[id.Name] = v
-					}
-				}
-			}
-			return true
-		})
-		for _, k := range []string{"Version", "Sequence", "Class"} {
-			if _, ok := vals[k]; !ok {
-				fail("%s.%s: literal %s not found", fn.recv, fn.name, k)
-			}
-		}
-		emit("Definition %s_literals : N * N := (%d, %d)%%N.  (* RMCP version, message sequence *)", fn.out, vals["Version"], vals["Sequence"])
 	}
 	emit("")
-	footprint(ps, []string{"github.com/gebn/bmc", "github.com/gebn/bmc/pkg/ipmi", "github.com/gebn/bmc/pkg/dcmi",
-		"github.com/gebn/bmc/internal/pkg/transport", "github.com/gebn/bmc/pkg/layerexts", "github.com/gebn/bmc/pkg/iana",
-		"github.com/gebn/bmc/internal/pkg/bcd", "github.com/gebn/bmc/internal/pkg/complement"})
+	section([]def{{"package_vars", "list string", "[]"}, {"global_writes", "list (string * string * string * string)", `[("?", "?", "?", "?")]`},
+		{"global_aliases", "list (string * string * string * string)", `[("?", "?", "?", "?")]`}}, func() {
+		footprint(ps, []string{"github.com/gebn/bmc", "github.com/gebn/bmc/pkg/ipmi", "github.com/gebn/bmc/pkg/dcmi",
+			"github.com/gebn/bmc/internal/pkg/transport", "github.com/gebn/bmc/pkg/layerexts", "github.com/gebn/bmc/pkg/iana",
+			"github.com/gebn/bmc/internal/pkg/bcd", "github.com/gebn/bmc/internal/pkg/complement"})
+	})
+	if len(warnings) > 0 {
+		emit("(* %d section(s) could not be read from the source *)", len(warnings))
+	}
 	if err := os.WriteFile(*outp, []byte(out.String()), 0o644); err != nil {
-		fail("%v", err)
+		fatal("%v", err)
 	}
 }
